@@ -11,7 +11,8 @@
    the combination logic is proved. *)
 From Coq Require Import List ZArith QArith.
 From TskVerif Require Import C08.Model C08.Incremental C08.Afs C08.Shapes C08.PairSpan C08.Rf C08.RelVec
-  C08.WindowProofs C08.ChunkProofs C08.IncrementalProofs C08.AccountProofs C08.AfsProofs C08.ShapesProofs
+  C08.WindowProofs C08.ChunkProofs C08.IncrementalProofs C08.AccountProofs
+  C08.ForestProofs C08.StateProofs C08.SweepStateProofs C08.FullBranchProofs C08.AfsProofs C08.ShapesProofs
   C08.PairSpanProofs C08.PairSpanFull C08.RfProofs C08.RelVecProofs.
 Import ListNotations.
 Open Scope Q_scope.
@@ -114,6 +115,34 @@ Theorem branch_incremental_window_accounting :
     exists rows, branch_incremental k F time W E I O L (x :: ws') = Some rows /\
                  Forall2 Qeq rows (windowed (S trace) (x :: ws')).
 Proof. exact incremental_window_accounting. Qed.
+
+(* (d'') CLOSED (round 3): the port of tsk_treeseq_branch_general_stat equals the
+   specification [branch_stat] over the trees the sweep visits, for every strictly
+   increasing window list, every summary function that is a function of the rational values
+   of its argument, every weight table with one in-range row of the right length per sample.
+   Along the edge removals / insertions the port's parent[] / state[] / branch_length[]
+   arrays are the specification's parent array, subtree weight sums and time differences
+   (invariant SweepStateProofs.Tracks: established by the initial state, preserved by
+   remove / insert with the ancestor walk, acyclicity from node times).
+   Remaining hypotheses, all boolean and evaluated on every run by the correspondence:
+   [sweep_ok] (an edge is removed where it is and inserted above a parentless child below an
+   older in-range parent — what a valid indexed table gives, properties C01/C02) and
+   [ttiles trace] (the visited intervals are contiguous from the first to the last
+   breakpoint); that the visited trees are the table's marginal forests (trace_segs_b) is
+   property C01's statement and is also evaluated per run. *)
+Theorem branch_incremental_equals_branch_stat :
+  forall (k : nat) (f : vec -> Q) (W : weights) (time : list Q) (polarised : bool),
+    (forall a b : vec, veq a b -> f a == f b) ->
+    Wok k W (length time) ->
+    forall (E : list edge) (I O : list Z) (L x : Q) (ws' : list Q) (trace : list trec) (hi : Q),
+      NoDup (map fst W) ->
+      sweep_ok (polar k f W polarised) time (length time) (2 * length E + 2) E I O L 0%Z 0%Z 0
+               (init_state k (polar k f W polarised) (length time) W) = true ->
+      branch_trace k (polar k f W polarised) time W E I O L = Some trace ->
+      ttiles trace x hi -> sincr (x :: ws') -> Forall (fun b => b <= hi) ws' ->
+      exists rows, branch_incremental k (polar k f W polarised) time W E I O L (x :: ws') = Some rows /\
+                   Forall2 Qeq rows (windowed (branch_stat k f W time polarised (segs_of_trace trace)) (x :: ws')).
+Proof. exact branch_incremental_is_branch_stat. Qed.
 
 (* ---- defects C08-F1..F4 were repaired in /repo (af93ddc, 093fdd5, a2ba426, e85e341); the
    models used by the correspondence follow the repaired code.  Positive statements about
